@@ -942,12 +942,12 @@ func main() {
 		},
 		Cases: func(tier string) int {
 			if tier == "thorough" {
-				return 100000
+				return 30000
 			}
-			return 4000
+			return 3000
 		},
 		Run: run,
-		Floors: map[string]int64{"writes_observed": 50000, "applies_succeeded": 4000, "final_states_checked": 4000, "frontends_checked": 40000,
-			"injected_failures_hit": 1500, "restarts_over_populated_maps": 500, "backends_resolved": 40000},
+		Floors: map[string]int64{"writes_observed": 30000, "applies_succeeded": 3000, "final_states_checked": 3000, "frontends_checked": 30000,
+			"injected_failures_hit": 1000, "restarts_over_populated_maps": 400, "backends_resolved": 30000},
 	})
 }
